@@ -1,10 +1,15 @@
 #!/usr/bin/env python3
-"""seedall.py [ids...] — re-confirms every change under /verif/seeded and re-runs the owning check (quick tier)
-against it; prints one line per change and writes /verif/seeded/RESULTS.json."""
+"""seedall.py [-j N] [ids...] — re-confirms every change under /verif/seeded and re-runs the owning check (quick tier)
+against it (N at a time, default 1); prints one line per change and writes /verif/seeded/RESULTS.json."""
 import glob, json, os, subprocess, sys
-ids = sys.argv[1:] or sorted(os.path.basename(d) for d in glob.glob('/verif/seeded/C*-*'))
-res = {}
-for i in ids:
+from concurrent.futures import ThreadPoolExecutor
+args = sys.argv[1:]
+jobs = 1
+if args[:1] == ['-j']:
+    jobs = int(args[1]); args = args[2:]
+ids = args or sorted(os.path.basename(d) for d in glob.glob('/verif/seeded/C*-*'))
+
+def one(i):
     d = '/verif/seeded/' + i
     m = json.load(open(d + '/meta.json'))
     extra = [p for p in m.get('confirmation', {}).get('checks', {}) if p != m['property']]
@@ -12,8 +17,17 @@ for i in ids:
     out = subprocess.run(cmd, stdout=subprocess.PIPE, stderr=subprocess.STDOUT, text=True).stdout.strip().splitlines()[-1]
     try:
         r = json.loads(out)
-        res[i] = {'confirmed': r['confirmed'], 'checks': {p: {'caught': c['caught'], 'wall_s': c['wall_s']} for p, c in (r.get('checks') or {}).items()}}
+        res = {'confirmed': r['confirmed'], 'checks': {p: {'caught': c['caught'], 'wall_s': c['wall_s']} for p, c in (r.get('checks') or {}).items()}}
     except Exception as e:
-        res[i] = {'error': out[:300]}
-    print(i, json.dumps(res[i]), flush=True)
-json.dump(res, open('/verif/seeded/RESULTS.json', 'w'), indent=1, sort_keys=True)
+        res = {'error': out[:300]}
+    print(i, json.dumps(res), flush=True)
+    return i, res
+
+with ThreadPoolExecutor(jobs) as ex:
+    res = dict(ex.map(one, ids))
+if not args:
+    json.dump(res, open('/verif/seeded/RESULTS.json', 'w'), indent=1, sort_keys=True)
+else:
+    old = json.load(open('/verif/seeded/RESULTS.json')) if os.path.exists('/verif/seeded/RESULTS.json') else {}
+    old.update(res)
+    json.dump(old, open('/verif/seeded/RESULTS.json', 'w'), indent=1, sort_keys=True)
